@@ -1,6 +1,10 @@
 #!/bin/bash
-# seedcheck.sh <patch> <prop> [tier]  — apply a seeded change to /repo, run the check, undo
+# seedcheck.sh <patch> <prop> [tier]  — apply a seeded change to /repo, run the check, undo.
+# The evidence file of the property is saved and restored: committed evidence must describe a run on the unchanged tree.
 set -u
+EV=/verif/evidence/$2.json
+[ -f "$EV" ] && cp "$EV" /tmp/.seedcheck_evidence_$2.json
 cd /repo && git apply "$1" || { echo "apply failed"; exit 3; }
 cd /verif && timeout 3000 ./check "$2" --tier "${3:-quick}" 2>&1 | grep -E "^VIOLATION|^INCONCLUSIVE|^KNOWN|^$2 |^  " | cut -c1-260 | tail -8
 git -C /repo checkout -- . && git -C /repo status --short | head -3
+[ -f /tmp/.seedcheck_evidence_$2.json ] && mv /tmp/.seedcheck_evidence_$2.json "$EV"
